@@ -16,6 +16,12 @@ use std::time::{Duration, Instant};
 
 pub const DEFAULT_SEED: u64 = 20261003;
 
+/// A single simulated run takes milliseconds (the heaviest, a full C19 offset sweep, a few seconds):
+/// no progress for this long is a hang.
+pub fn hang_limit() -> Duration {
+    Duration::from_secs(std::env::var("VERIF_HANG_S").ok().and_then(|s| s.parse().ok()).unwrap_or(60))
+}
+
 pub fn seed_for(verif_seed: u64, prop: &str, batch: &str, idx: u64) -> u64 {
     mix(mix_str(mix_str(verif_seed, prop), batch), idx)
 }
@@ -249,7 +255,7 @@ pub fn run_batch(prop: &Prop, batch: &Batch, tier: &str, seed: u64, workers: usi
     pending.reverse();
     let mut jobs: Vec<Job> = Vec::new();
     let mut serial = 0usize;
-    let hang_after = Duration::from_secs(std::env::var("VERIF_HANG_S").ok().and_then(|s| s.parse().ok()).unwrap_or(90));
+    let hang_after = hang_limit();
     loop {
         while jobs.len() < workers {
             let Some((lo, hi)) = pending.pop() else { break };
@@ -360,7 +366,7 @@ fn exec_trace_subprocess(prop: &str, batch: &str, tier: &str, t: &Trace) -> Opti
         if let Ok(Some(s)) = child.try_wait() {
             break Some(s);
         }
-        if t0.elapsed() > Duration::from_secs(30) {
+        if t0.elapsed() > hang_limit() {
             let _ = child.kill();
             let _ = child.wait();
             break None;
@@ -505,7 +511,7 @@ fn minimise_fatal(prop: &Prop, batch: &Batch, tier: &str, seed: u64, idx: u64, c
         if let Ok(Some(_)) = child.try_wait() {
             break;
         }
-        if t0.elapsed() > Duration::from_secs(120) {
+        if t0.elapsed() > hang_limit() + Duration::from_secs(5) {
             let _ = child.kill();
             let _ = child.wait();
             break;
@@ -533,7 +539,8 @@ fn minimise_fatal(prop: &Prop, batch: &Batch, tier: &str, seed: u64, idx: u64, c
             _ => None,
         }
     };
-    let max_exec: u64 = std::env::var("VERIF_SHRINK_EXEC_FATAL").ok().and_then(|s| s.parse().ok()).unwrap_or(400);
+    // every candidate that still hangs costs a full time-out: a hang is reported with its unshrunk trace
+    let max_exec: u64 = if class == "hang" { 0 } else { std::env::var("VERIF_SHRINK_EXEC_FATAL").ok().and_then(|s| s.parse().ok()).unwrap_or(400) };
     let (best, st) = simcore::shrink::shrink(start, &mut test, max_exec);
     Some(Minimised { trace: best, class: class.to_string(), detail: String::new(), log: vec!["(process-killing violation: the event log ends with the process)".into()], executions: st.executions })
 }
@@ -583,16 +590,41 @@ pub fn replay_main(path: &str) -> i32 {
         let dir = run_dir();
         let out = dir.join("replay.json");
         let marker = dir.join("replay.marker");
-        let st = Command::new(exe)
+        let child = Command::new(exe)
             .args(["worker", prop.id, batch.name, tier, &seed.to_string(), &idx.to_string(), &(idx + 1).to_string()])
             .arg(&out)
             .arg(&marker)
+            .stdin(Stdio::null())
+            .stdout(Stdio::null())
             .stderr(Stdio::piped())
-            .output();
+            .spawn();
+        let Ok(mut child) = child else { return 2 };
+        let limit = hang_limit() + Duration::from_secs(5);
+        let t0 = Instant::now();
+        let status = loop {
+            if let Ok(Some(s)) = child.try_wait() {
+                break Some(s);
+            }
+            if t0.elapsed() > limit {
+                let _ = child.kill();
+                let _ = child.wait();
+                break None;
+            }
+            std::thread::sleep(Duration::from_millis(10));
+        };
+        let mut se = String::new();
+        if let Some(mut e) = child.stderr.take() {
+            let _ = e.read_to_string(&mut se);
+        }
         let _ = std::fs::remove_dir_all(&dir);
-        return match st {
-            Ok(o) if !o.status.success() => {
-                println!("reproduced: {class} ({:?}); stderr tail: {}", o.status, tail(&String::from_utf8_lossy(&o.stderr), 200));
+        return match status {
+            None if class == "hang" => {
+                println!("reproduced: hang (no progress within {:?})", limit);
+                println!("VIOLATION property={} replay={}", prop.id, path);
+                1
+            }
+            Some(s) if !s.success() && class != "hang" => {
+                println!("reproduced: {class} ({:?}); stderr tail: {}", s, tail(&se, 200));
                 println!("VIOLATION property={} replay={}", prop.id, path);
                 1
             }
